@@ -359,3 +359,11 @@ func SimForceUnblockAll() {
 		}
 	}
 }
+
+// SimBucketIndex tells a workload generator in which bucket of a table of the
+// given size (a power of two) a name is filed, so that it can build tables
+// with a chosen occupancy (e.g. both buckets of the last sibling pair).
+func SimBucketIndex(key string, buckets int) int {
+	var rd redisDict
+	return int(rd.hashToIndex(rd.hash(key), uint32(buckets)))
+}
